@@ -171,6 +171,8 @@ type vkServer struct {
 	// Handlers are the admin API handlers registered by the filter, keyed by
 	// "METHOD /path".
 	Handlers map[string]http.HandlerFunc
+	// St is the client registry the server consults.
+	St *client.Storage
 }
 
 func vkWeekly(pauseAlways bool) *schedule.Weekly {
@@ -179,6 +181,22 @@ func vkWeekly(pauseAlways bool) *schedule.Weekly {
 	}
 
 	return schedule.EmptyWeekly()
+}
+
+// vkPersistent builds the persistent client described by vc.
+func vkPersistent(vc vkClient) *client.Persistent {
+	return &client.Persistent{
+		Name:                  vc.Name,
+		IPs:                   []netip.Addr{netip.MustParseAddr(vc.IP)},
+		UID:                   client.MustNewUID(),
+		UseOwnSettings:        vc.UseOwnSettings,
+		FilteringEnabled:      vc.FilteringEnabled,
+		UseOwnBlockedServices: vc.UseOwnServices,
+		BlockedServices: &filtering.BlockedServices{
+			Schedule: vkWeekly(vc.ServicesPauseAlways),
+			IDs:      vc.Services,
+		},
+	}
 }
 
 // vkStart builds the filter, the client storage and the server from c and
@@ -251,19 +269,7 @@ func vkStartOnce(c *vkConf) (vs *vkServer, err error) {
 
 	var pcs []*client.Persistent
 	for _, vc := range c.Clients {
-		p := &client.Persistent{
-			Name:                  vc.Name,
-			IPs:                   []netip.Addr{netip.MustParseAddr(vc.IP)},
-			UID:                   client.MustNewUID(),
-			UseOwnSettings:        vc.UseOwnSettings,
-			FilteringEnabled:      vc.FilteringEnabled,
-			UseOwnBlockedServices: vc.UseOwnServices,
-			BlockedServices: &filtering.BlockedServices{
-				Schedule: vkWeekly(vc.ServicesPauseAlways),
-				IDs:      vc.Services,
-			},
-		}
-		pcs = append(pcs, p)
+		pcs = append(pcs, vkPersistent(vc))
 	}
 	st, err := client.NewStorage(ctx, &client.StorageConfig{
 		Logger:         slogutil.NewDiscardLogger(),
@@ -336,7 +342,7 @@ func vkStartOnce(c *vkConf) (vs *vkServer, err error) {
 	}
 
 	return &vkServer{
-		S: s, F: f, Up: up, QLog: ql, dir: dir, Handlers: handlers,
+		S: s, F: f, Up: up, QLog: ql, dir: dir, Handlers: handlers, St: st,
 		UDP: s.dnsProxy.Addr(proxy.ProtoUDP).String(),
 		TCP: s.dnsProxy.Addr(proxy.ProtoTCP).String(),
 	}, nil
